@@ -281,6 +281,14 @@ theorem down_slots (r : List Slot) (n : Int) (hn : InI64 n) (hn1 : 1 ≤ n) (idx
     have he : ((N - 1 : Nat) : Int) + 1 = n := by omega
     simpa [he, slot] using this
 
+/-- non-vacuity of the two slot lemmas: a count-up loop over 3 and a count-down loop from 3 pass through the slots the rule expects -/
+example : Repeat.stepEnd [{ counter := 1, limit := .up 3, repeatIndex := 7 }] =
+    .ok ([{ counter := 2, limit := .up 3, repeatIndex := 7 }], some 7) := by decide
+example : Repeat.stepEnd [{ counter := 2, limit := .up 3, repeatIndex := 7 }] = .ok ([], none) := by decide
+example : Repeat.stepEnd [{ counter := 3, limit := .down, repeatIndex := 7 }] =
+    .ok ([{ counter := 2, limit := .down, repeatIndex := 7 }], some 7) := by decide
+example : Repeat.stepEnd [{ counter := 1, limit := .down, repeatIndex := 7 }] = .ok ([], none) := by decide
+
 /-! ### the rule applied: a program that sums its loop counters, for every trip count
 
 `… PUSH 0, PUSH n, PUSH 1, REP, REPC, ADD, REPE` (the loop at pc 3 … 6): after the loop the stack holds `0 + 1 + … + (n - 1)` and
